@@ -11,7 +11,7 @@ use xml_dom::{
 
 pub const START_DOCS: &[&str] = &[
     "<r><a id=\"1\">x<b/>y</a><c k=\"v\"><!--m--><d/></c><?p q?>t</r>",
-    "<r><a/></r>",
+    "<r id=\"r\"><a id=\"1\" k=\"x\">t</a><b id=\"2\" k=\"y\"><c k=\"z\"/></b></r>",
     "<!DOCTYPE r [<!ENTITY e \"ee\"><!ATTLIST a d CDATA \"dv\">]><r>t1<a n=\"1\">&e;<![CDATA[cd]]></a><b><c><d>deep</d></c></b></r>",
     "<r xmlns:p=\"urn:p\"><p:a p:k=\"1\">\u{e9}\u{1F600}</p:a><b>one</b>two<b>three</b></r>",
     "<?x y?><r><!--c1--><a>a-b-c</a><b>]]</b><c>1</c></r><!--end-->",
@@ -40,6 +40,8 @@ pub struct HistCfg {
     pub huge_offsets: bool,
     /// number of START_DOCS usable (0 = all)
     pub max_doc: usize,
+    /// weight of two-call steps: create a node and attach it at once (builds subtrees and multi-piece values)
+    pub w_compound: u32,
 }
 
 fn pick_str(g: &mut Genes, pool: &[&str]) -> String {
@@ -56,7 +58,41 @@ pub fn gen_history(g: &mut Genes, cfg: &HistCfg) -> Json {
     let data = if cfg.safe_strings { SAFE_DATA } else { DATA };
     let mut ops: Vec<Json> = vec![];
     for _ in 0..n {
-        let class = g.weighted(&[cfg.w_struct, cfg.w_attr, cfg.w_chardata, cfg.w_create]);
+        let class = g.weighted(&[cfg.w_struct, cfg.w_attr, cfg.w_chardata, cfg.w_create, cfg.w_compound]);
+        if class == 4 {
+            let d = g.raw();
+            let rp = g.raw();
+            let newest = json!([65535, "recent"]);
+            match g.weighted(&[3, 6, 2, 1]) {
+                0 => {
+                    // a further text piece for an attribute value
+                    ops.push(json!({"op": "create_text", "d": d, "s": pick_str(g, data)}));
+                    ops.push(json!({"op": "append", "p": [rp, "attr"], "c": newest}));
+                }
+                1 => {
+                    let create = match g.weighted(&[4, 3, 1, 1, 1]) {
+                        0 => json!({"op": "create_element", "d": d, "name": pick_str(g, names)}),
+                        1 => json!({"op": "create_text", "d": d, "s": pick_str(g, data)}),
+                        2 => json!({"op": "create_comment", "d": d, "s": pick_str(g, data)}),
+                        3 => json!({"op": "create_cdata", "d": d, "s": pick_str(g, data)}),
+                        _ => json!({"op": "create_pi", "d": d, "name": pick_str(g, names), "s": pick_str(g, data)}),
+                    };
+                    let target = ["element", "detached-element", "recent"][g.weighted(&[4, 3, 3])];
+                    ops.push(create);
+                    ops.push(json!({"op": "append", "p": [rp, target], "c": newest}));
+                }
+                2 => {
+                    let pspec = json!([rp, "element"]);
+                    ops.push(json!({"op": "create_element", "d": d, "name": pick_str(g, names)}));
+                    ops.push(json!({"op": "insert_before", "p": pspec.clone(), "c": newest, "r": [g.raw(), "child-of", pspec]}));
+                }
+                _ => {
+                    ops.push(json!({"op": "create_attr", "d": d, "name": pick_str(g, names)}));
+                    ops.push(json!({"op": "set_attr_node", "e": [rp, "element"], "a": newest}));
+                }
+            }
+            continue;
+        }
         let ra = g.raw();
         let rb = g.raw();
         let rc = g.raw();
